@@ -1,15 +1,220 @@
 (* C10 - JSON in and out agrees with the JSON standard (RFC 8259) and round-trips exactly.
-   This file contains only statements, closed by [exact], and Print Assumptions. *)
-From Verif Require Import Json.Model Json.Utf8Proofs Json.StringProofs Json.NumProofs Json.RoundTrip.
+   This file contains only statements, closed by [exact], and Print Assumptions.
+   Models: Json/Model.v (RFC 8259 reader/printer, Go's string escaper), Json/Cue.v
+   (transcriptions of cue/literal Unquote and ParseNum, apd SetString/Neg/'G'),
+   Json/Data.v (Spec and Impl data). *)
+From Verif Require Import Json.Model Json.Cue Json.Data Json.Utf8Proofs Json.StringProofs Json.NumProofs
+  Json.RoundTrip Json.CueStrProofs Json.CueNumProofs Json.FormatProofs Json.DataProofs Json.Reject
+  Json.Refine Json.Examples.
 
-(* the round trip for ALL well-formed values: any nesting, duplicate and empty keys,
-   every string of Unicode scalar values, every number spelling the value type holds *)
+(* ------------------------------------------------------------ round trip ---- *)
+(* ALL well-formed values: any nesting, repeated and empty member names, every string of
+   Unicode scalar values, every number the value type holds *)
 Theorem C10_json_parse_print : forall v, wf_value v = true -> json_parse (json_print v) = Some v.
 Proof. exact json_parse_print. Qed.
 Print Assumptions C10_json_parse_print.
 
+(* the same through the Cue-mode reader, for values without U+FEFF in strings *)
+Theorem C10_cue_parse_print : forall v, wf_value v = true -> bom_free v = true ->
+  json_parse_gen Cue (json_print v) = Some v.
+Proof. exact cue_parse_print. Qed.
+Print Assumptions C10_cue_parse_print.
+
+(* inside any document: a printed value followed by a delimiter is read back, with fuel jfuel v *)
+Theorem C10_parse_value_print_context : forall m v tail, wf_value v = true ->
+  (rej_bom m = true -> bom_free v = true) -> follow_ok tail = true ->
+  parse_value m (jfuel v) (json_print v ++ tail) = Some (v, tail).
+Proof. exact parse_value_print_context. Qed.
+Print Assumptions C10_parse_value_print_context.
+
+Theorem C10_fuel_sufficient : forall v, wf_value v = true -> (jfuel v <= length (json_print v))%nat.
+Proof. exact jfuel_le_length. Qed.
+Print Assumptions C10_fuel_sufficient.
+
+(* ---------------------------------------------------------------- strings ---- *)
 (* Go's escaper (escapeHTML off) is inverted by the JSON string reader *)
 Theorem C10_escape_valid_and_inverse : forall cs, forallb is_scalar cs = true ->
   json_unescape (json_escape cs) = Some cs.
 Proof. exact escape_valid_and_inverse. Qed.
 Print Assumptions C10_escape_valid_and_inverse.
+
+(* the UTF-8 codec both ways *)
+Theorem C10_utf8_decode_encode : forall c r, is_scalar c = true -> utf8_decode (utf8_encode c ++ r) = Some (c, r).
+Proof. exact decode_encode. Qed.
+Print Assumptions C10_utf8_decode_encode.
+
+Theorem C10_utf8_decode_inv : forall s c r, utf8_decode s = Some (c, r) ->
+  is_scalar c = true /\ s = utf8_encode c ++ r.
+Proof. exact decode_inv. Qed.
+Print Assumptions C10_utf8_decode_inv.
+
+(* handing a JSON string literal to literal.Unquote preserves the string, unless it has an
+   unpaired surrogate escape (then the strict reader rejects it) *)
+Theorem C10_json_string_is_cue_string : forall t v,
+  json_unescape_gen Strict t = Some v -> cue_unquote t = UOk (utf8_encode_all v).
+Proof. exact json_string_is_cue_string. Qed.
+Print Assumptions C10_json_string_is_cue_string.
+
+Theorem C10_strict_refines_std : forall t v, json_unescape_gen Strict t = Some v -> json_unescape t = Some v.
+Proof. exact strict_refines_std. Qed.
+Print Assumptions C10_strict_refines_std.
+
+(* F6 *)
+Theorem C10_lone_surrogate_refuted : exists t, json_unescape t = Some [0xFFFD] /\ cue_unquote t = UErr.
+Proof. exact lone_surrogate_refuted. Qed.
+Print Assumptions C10_lone_surrogate_refuted.
+
+(* ---------------------------------------------------------------- numbers ---- *)
+(* grammar inclusion and the kind rule: no fraction and no exponent <-> int *)
+Theorem C10_json_number_is_cue_literal : forall t n, parse_number t = Some (n, []) ->
+  exists u buf, t = (if jneg n then [45] else []) ++ u /\
+    parse_num u = PNOk 10 (negb (jnum_is_int n)) buf.
+Proof. exact json_number_is_cue_literal. Qed.
+Print Assumptions C10_json_number_is_cue_literal.
+
+(* same value, exactly (coefficient and exponent), inside apd's exponent range *)
+Theorem C10_json_number_is_cue_number : forall t n,
+  parse_number t = Some (n, []) -> num_in_range n = true ->
+  cue_read_number t = Some (jnum_is_int n, CFin (cue_dec_of n)).
+Proof. exact json_number_is_cue_number. Qed.
+Print Assumptions C10_json_number_is_cue_number.
+
+(* F11 *)
+Theorem C10_number_exponent_refuted :
+  (exists t n, parse_number t = Some (n, []) /\ dexp (jnum_dec n) = 100001%Z /\
+               cue_read_number t = Some (false, CFin {| dneg := false; dcoeff := 1; dexp := 0 |})) /\
+  (exists t n, parse_number t = Some (n, []) /\ cue_read_number t = Some (false, CNaN)).
+Proof. exact number_exponent_refuted. Qed.
+Print Assumptions C10_number_exponent_refuted.
+
+Theorem C10_parse_number_print : forall n rest, wf_num n = true -> num_follow_ok rest = true ->
+  parse_number (print_num n ++ rest) = Some (n, rest).
+Proof. exact parse_number_print. Qed.
+Print Assumptions C10_parse_number_print.
+
+(* what Value.MarshalJSON writes for a number is a JSON number denoting exactly that decimal *)
+Theorem C10_format_G_is_json_number : forall d,
+  parse_number (format_G d) = Some (format_G_num d, []) /\
+  wf_num (format_G_num d) = true /\ jnum_dec (format_G_num d) = d.
+Proof. exact format_G_is_json_number. Qed.
+Print Assumptions C10_format_G_is_json_number.
+
+(* ------------------------------------------------------------------- data ---- *)
+Theorem C10_cue_data_spec_when : forall v, wf_value v = true -> dup_keys v = false ->
+  nums_in_range v = true -> cue_data v = Some (spec_data v).
+Proof. exact cue_data_spec_when. Qed.
+Print Assumptions C10_cue_data_spec_when.
+
+(* the Cue-mode reader only ever rejects more: same value whenever it accepts *)
+Theorem C10_cue_parse_refines_std : forall s v, json_parse_gen Cue s = Some v -> json_parse s = Some v.
+Proof. exact cue_parse_refines_std. Qed.
+Print Assumptions C10_cue_parse_refines_std.
+
+(* F12, F10 *)
+Theorem C10_dup_keys_refuted :
+  (exists d, spec_decode doc_dup_conflict = Some d /\ cue_decode doc_dup_conflict = None) /\
+  (exists d1 d2, spec_decode doc_dup_merge = Some d1 /\ cue_decode doc_dup_merge = Some d2 /\ d1 <> d2).
+Proof. exact dup_keys_refuted. Qed.
+Print Assumptions C10_dup_keys_refuted.
+
+Theorem C10_raw_bom_refuted : exists doc d, spec_decode doc = Some d /\ cue_decode doc = None.
+Proof. exact raw_bom_refuted. Qed.
+Print Assumptions C10_raw_bom_refuted.
+
+Theorem C10_bom_reprint_refuted :
+  exists v, wf_value v = true /\ json_parse (json_print v) = Some v /\ json_parse_gen Cue (json_print v) = None.
+Proof. exact bom_reprint_refuted. Qed.
+Print Assumptions C10_bom_reprint_refuted.
+
+(* -------------------------------------------------------------- rejection ---- *)
+Theorem C10_reject_blank : forall m ws, forallb is_ws ws = true -> json_parse_gen m ws = None.
+Proof. exact reject_blank. Qed.
+Print Assumptions C10_reject_blank.
+
+Theorem C10_reject_bad_start : forall m ws c rest, forallb is_ws ws = true ->
+  is_ws c = false -> value_start c = false -> json_parse_gen m (ws ++ c :: rest) = None.
+Proof. exact reject_bad_start. Qed.
+Print Assumptions C10_reject_bad_start.
+
+Theorem C10_reject_trailing_garbage : forall m v c rest, wf_value v = true ->
+  (rej_bom m = true -> bom_free v = true) ->
+  is_ws c = false -> follow_ok (c :: rest) = true ->
+  json_parse_gen m (json_print v ++ c :: rest) = None.
+Proof. exact reject_trailing_garbage. Qed.
+Print Assumptions C10_reject_trailing_garbage.
+
+Theorem C10_reject_leading_zero : forall m d rest, is_digit d = true ->
+  json_parse_gen m (48 :: d :: rest) = None /\ json_parse_gen m (45 :: 48 :: d :: rest) = None.
+Proof. exact reject_leading_zero. Qed.
+Print Assumptions C10_reject_leading_zero.
+
+Theorem C10_reject_point_without_digits : forall m d ds rest, forallb is_digit (d :: ds) = true ->
+  no_digit_head rest = true -> json_parse_gen m ((d :: ds) ++ 46 :: rest) = None.
+Proof. exact reject_point_without_digits. Qed.
+Print Assumptions C10_reject_point_without_digits.
+
+Theorem C10_reject_exponent_without_digits : forall m d ds ee sg rest, forallb is_digit (d :: ds) = true ->
+  (ee = 101 \/ ee = 69) -> (sg = [] \/ sg = [43] \/ sg = [45]) ->
+  no_digit_head rest = true -> (sg = [] -> match rest with c :: _ => c <> 43 /\ c <> 45 | [] => True end) ->
+  json_parse_gen m ((d :: ds) ++ ee :: sg ++ rest) = None.
+Proof. exact reject_exponent_without_digits. Qed.
+Print Assumptions C10_reject_exponent_without_digits.
+
+(* unterminated strings, bare control characters, a lone backslash, escapes that are not JSON
+   (\a \v \x \U \( \' \0 ...), bad \u digits, bytes that are not UTF-8 *)
+Theorem C10_reject_bad_string : forall m pre tail, forallb plain pre = true -> bad_string_tail m tail ->
+  json_parse_gen m (34 :: pre ++ tail) = None.
+Proof. exact reject_bad_string. Qed.
+Print Assumptions C10_reject_bad_string.
+
+Theorem C10_reject_trailing_comma_array : forall m v0 l0, Forall (ok_for m) (v0 :: l0) ->
+  json_parse_gen m (91 :: json_print v0 ++ print_rest l0 ++ [44; 93]) = None.
+Proof. exact reject_trailing_comma_array. Qed.
+Print Assumptions C10_reject_trailing_comma_array.
+
+Theorem C10_reject_member_without_name : forall m c rest, is_ws c = false -> c <> 34 -> c <> 125 ->
+  json_parse_gen m (123 :: c :: rest) = None.
+Proof. exact reject_member_without_name. Qed.
+Print Assumptions C10_reject_member_without_name.
+
+Theorem C10_reject_member_without_colon : forall m k c rest, forallb is_scalar k = true ->
+  (rej_bom m = true -> ~ In 0xFEFF k) -> is_ws c = false -> c <> 58 ->
+  json_parse_gen m (123 :: json_escape k ++ c :: rest) = None.
+Proof. exact reject_member_without_colon. Qed.
+Print Assumptions C10_reject_member_without_colon.
+
+Theorem C10_cue_rejects_raw_bom : forall pre rest, forallb plain pre = true ->
+  json_parse_gen Cue (34 :: pre ++ [0xEF; 0xBB; 0xBF] ++ rest) = None.
+Proof. exact cue_rejects_raw_bom. Qed.
+Print Assumptions C10_cue_rejects_raw_bom.
+
+Theorem C10_strict_rejects_lone_low : forall m pre u rest r2, rej_lone m = true -> forallb plain pre = true ->
+  hex4 rest = Some (u, r2) -> is_low u = true ->
+  json_parse_gen m (34 :: pre ++ 92 :: 117 :: rest) = None.
+Proof. exact strict_rejects_lone_low. Qed.
+Print Assumptions C10_strict_rejects_lone_low.
+
+(* ------------------------------------------------------------ non-vacuity ---- *)
+From Coq Require Import String.
+Open Scope string_scope.
+Example C10_ex_value_roundtrip : wf_value ex_value = true /\ json_parse (json_print ex_value) = Some ex_value.
+Proof. exact (conj ex_value_wf ex_value_roundtrip). Qed.
+Print Assumptions C10_ex_value_roundtrip.
+
+Example C10_ex_string : json_unescape_gen Strict (b """a\n😀é\""\\\/""") = Some [97; 10; 0x1F600; 233; 34; 92; 47].
+Proof. exact ex_string_hyp. Qed.
+Print Assumptions C10_ex_string.
+
+Example C10_ex_number :
+  exists n, parse_number (b "-12.50E+2") = Some (n, []) /\ num_in_range n = true /\
+            jnum_is_int n = false /\ cue_dec_of n = {| dneg := true; dcoeff := 1250; dexp := 0 |}.
+Proof. exact ex_number_hyp. Qed.
+Print Assumptions C10_ex_number.
+
+Example C10_ex_data : wf_value ex_value2 = true /\ dup_keys ex_value2 = false /\ nums_in_range ex_value2 = true.
+Proof. exact ex_data_hyp. Qed.
+Print Assumptions C10_ex_data.
+
+Example C10_ex_bad_tail : bad_string_tail Std (b "\x41""") /\ bad_string_tail Std [9; 34] /\ plain 97 = true.
+Proof. exact ex_bad_tail. Qed.
+Print Assumptions C10_ex_bad_tail.
